@@ -110,6 +110,10 @@ enum Step {
     /// Several own-topic acks issued concurrently (joined futures) through clones of the same
     /// `Acked` – the semaphore they share serialises the read-modify-write of the cursor.
     ConcurrentAcks(Vec<(u8, u32)>),
+    /// Own-topic ack issued (sequentially) through a second, *independent* `Acked` of the same
+    /// topic and cursor name – what a re-subscription (`node.stream(topic)` called again) creates
+    /// while operation handles of the first subscription are still around.
+    AckResubscribed { author: u8, seq: u32 },
 }
 
 #[derive(Clone, Debug, Serialize, Deserialize)]
@@ -154,6 +158,14 @@ fn check_acked(case: &AckedCase) -> CaseResult {
             Acked::new(store.clone(), own)
         };
         let acked1 = acked0.clone();
+        let resubscribed = if case.custom_name {
+            Acked::from_name(store.clone(), own, "c07-custom")
+        } else {
+            Acked::new(store.clone(), own)
+        };
+        let mut via_resubscribed = 0usize;
+        let mut alternations = 0usize;
+        let mut last_instance = 0u8;
         // A tracker for the *other* topic on the same store must not be influenced either.
         let other = Acked::new(store.clone(), topics[1]);
 
@@ -183,6 +195,10 @@ fn check_acked(case: &AckedCase) -> CaseResult {
                         }
                         *e = (*e).max(*seq);
                         own_acks += 1;
+                        if last_instance != 0 {
+                            alternations += 1;
+                        }
+                        last_instance = 0;
                         if last_was_foreign_after_own {
                             foreign_between_own = true;
                         }
@@ -197,6 +213,26 @@ fn check_acked(case: &AckedCase) -> CaseResult {
                             last_was_foreign_after_own = true;
                         }
                     }
+                }
+                Step::AckResubscribed { author, seq } => {
+                    let a = &authors[(*author % 3) as usize];
+                    let h = header(a, own, *seq);
+                    resubscribed
+                        .ack(&h)
+                        .await
+                        .map_err(|e| format!("own-topic ack through the re-subscribed tracker failed at step {i}: {e}"))?;
+                    let key = (a.verifying_key(), LogId::from_topic(own));
+                    let e = model.entry(key).or_insert(*seq);
+                    if *seq < *e {
+                        lower_after_higher = true;
+                    }
+                    *e = (*e).max(*seq);
+                    own_acks += 1;
+                    via_resubscribed += 1;
+                    if last_instance != 1 {
+                        alternations += 1;
+                    }
+                    last_instance = 1;
                 }
                 Step::ConcurrentAcks(acks) => {
                     let headers: Vec<Header<Extensions>> =
@@ -251,6 +287,8 @@ fn check_acked(case: &AckedCase) -> CaseResult {
             .label_if(foreign_between_own, "foreign_ack_between_own_acks")
             .label_if(case.steps.iter().any(|s| matches!(s, Step::ResetToStart)), "has_reset")
             .label_if(concurrent_batches > 0, "concurrent_acks_through_clones")
+            .label_if(via_resubscribed > 0, "acks_through_resubscribed_tracker")
+            .label_if(alternations >= 2, "trackers_alternate_twice_or_more")
             .label_if(case.custom_name, "custom_cursor_name"))
     })
 }
@@ -285,7 +323,7 @@ pub fn run(mut ctx: Ctx) -> ! {
     ctx.run_prop(
         Part::new(
             "acked_histories",
-            "histories of <=30 steps on one SQLite store: ack(header) for own/foreign topic by 3 authors through two clones of one Acked, irreversible reset (StreamFrom::Start), frontier reads; persisted cursor compared with the max-model after every step; non-trivial = lower seq acked after a higher one, or a foreign-topic ack between two own-topic acks",
+            "histories of <=30 steps on one SQLite store: ack(header) for own/foreign topic by 3 authors through two clones of one Acked and (sequentially) through a second independent Acked of the same cursor name (re-subscription), irreversible reset (StreamFrom::Start), frontier reads; persisted cursor compared with the max-model after every step; non-trivial = lower seq acked after a higher one, or a foreign-topic ack between two own-topic acks",
             300,
             9_000,
         )
@@ -300,6 +338,7 @@ pub fn run(mut ctx: Ctx) -> ! {
                         1 => Just(Step::ResetToStart),
                         1 => Just(Step::ReadFrontier),
                         3 => prop::collection::vec((0u8..3, seq()), 2..=5).prop_map(Step::ConcurrentAcks),
+                        4 => (0u8..3, seq()).prop_map(|(author, seq)| Step::AckResubscribed { author, seq }),
                     ],
                     1..=30,
                 ),
